@@ -81,7 +81,7 @@ var plans = map[string]*plan{
 		Floors:         map[string]int64{"c13.exh.scopes_complete": 10, "c13.exh.sequences": 700000, "c13.rand.ops": 300000, "c13.rand.grew_past_256": 5, "c13.conc.histories": 250, "c13.conc.overlapping_calls": 50, "c13.grow.cells": 780, "classes": 100},
 		FloorsThorough: map[string]int64{"c13.exh.scopes_complete": 10, "c13.exh.sequences": 5000000, "c13.rand.ops": 10000000, "c13.conc.histories": 5000, "classes": 100},
 		Exhaustive:     func(r *result) bool { return false },
-		Assumptions:    []string{"'terminal' is PUBACK / PUBCOMP / PUBREL / SUBACK / UNSUBACK per queue as routed by service/process.go; an entry is releasable when its most recent acknowledgement is terminal", "Acked() is called from one goroutine at a time (it returns an internal slice), as the service does"},
+		Assumptions:    []string{"'terminal' is PUBACK / PUBCOMP / PUBREL / SUBACK / UNSUBACK per queue as routed by service/process.go; an entry is releasable when its most recent acknowledgement is terminal", "Acked() is called from one goroutine at a time in these monitors, as one connection's service does"},
 	},
 	"C14": {
 		Level: "exploration",
